@@ -247,31 +247,5 @@ def _closure_tests_class(F, g, t, c):
 
 
 def _option_chain_filters_on_class(F, g):
-    """the lookup written as an Option chain: the returned value is slot.as_ref().filter(|e| e.class == class).map(..):
-    a filter on class equality, and after it only payload projections (no combinator that can re-create Some)."""
-    rets = [s for _, _, s in g.stmts() if s["d"]["l"] == 0 and not s["d"]["p"]]
-    if rets:
-        return False  # _0 assigned by statements: the guard form, decided by the caller
-    cur = None
-    for bi, t in g.calls():
-        if t["dest"]["l"] == 0 and not t["dest"]["p"]:
-            if cur is not None:
-                return False
-            cur = t
-    filtered = False
-    steps = 0
-    while cur is not None and steps < 12:
-        steps += 1
-        n = lastseg(cur.get("decl") or cur["f"])
-        if "core::option::Option" not in cur["f"]:
-            break
-        if n == "filter":
-            cl = [F.fn(p) for p in sem.closure_args_of_call(g, cur)]
-            if len(cl) != 1 or cl[0] is None or not _closure_tests_class(F, g, cur, cl[0]):
-                return False
-            filtered = True
-        elif n not in ("map", "as_ref", "copied", "cloned", "as_deref"):
-            return False  # or / or_else / xor / and / unwrap_or ...: could answer for another class
-        r = g.root_of(cur["args"][0]) if cur["args"] else ("unknown",)
-        cur = r[1] if r[0] == "call" else None
-    return filtered
+    """the lookup written as an Option chain: the returned value is slot.as_ref().filter(|e| e.class == class).map(..)"""
+    return sem.option_chain_filtered(F, g, lambda c, t: _closure_tests_class(F, g, t, c))
